@@ -144,6 +144,8 @@ type caseSpec struct {
 	DB      string `json:"database"`
 	Params  Params `json:"params"`
 	Cluster bool   `json:"cluster,omitempty"`
+	// ZoneOffS: UTC offset (seconds) of the reader process's local time zone (time.Local) for this case
+	ZoneOffS int `json:"zone_off_s,omitempty"`
 }
 
 var selJ = []Matcher{{"job", "=", "j"}}
@@ -186,6 +188,10 @@ type generator struct {
 }
 
 func (g *generator) add(layer string, q *Query, d *Database, p Params, cluster bool) {
+	g.addZ(layer, q, d, p, cluster, 0)
+}
+
+func (g *generator) addZ(layer string, q *Query, d *Database, p Params, cluster bool, zoneOffS int) {
 	idx := g.n
 	g.n++
 	g.layerN[layer]++
@@ -199,7 +205,7 @@ func (g *generator) add(layer string, q *Query, d *Database, p Params, cluster b
 		}
 		if g.keys != nil {
 			h := fnv.New64a()
-			fmt.Fprintf(h, "%s|%s|%d|%d|%d|%v", g.lastText, d.Name, p.FromS, p.ToS, p.StepMs, cluster)
+			fmt.Fprintf(h, "%s|%s|%d|%d|%d|%v|%d", g.lastText, d.Name, p.FromS, p.ToS, p.StepMs, cluster, zoneOffS)
 			k := h.Sum64()
 			if g.keys[k] && g.dup == "" {
 				g.dup = fmt.Sprintf("%s on %s %+v", g.lastText, d.Name, p)
@@ -211,7 +217,7 @@ func (g *generator) add(layer string, q *Query, d *Database, p Params, cluster b
 		return
 	}
 	qq := *q
-	g.cases = append(g.cases, caseSpec{Idx: idx, Layer: layer, Query: &qq, Text: qq.String(), DB: d.Name, Params: p, Cluster: cluster})
+	g.cases = append(g.cases, caseSpec{Idx: idx, Layer: layer, Query: &qq, Text: qq.String(), DB: d.Name, Params: p, Cluster: cluster, ZoneOffS: zoneOffS})
 }
 
 func generate(thorough bool, sel func(int) bool, count bool) *generator {
@@ -441,6 +447,9 @@ func generate(thorough bool, sel func(int) bool, count bool) *generator {
 	// ---------------- L7 ----------------
 	g.groupingCompositions(maxEntries)
 
+	// ---------------- L8 ----------------
+	g.zones()
+
 	// ---------------- L5 ----------------
 	g.special(serFam, timeFam)
 
@@ -633,6 +642,107 @@ func (g *generator) groupingCompositions(maxEntries int) {
 						for _, d := range fam.dbs[r] {
 							g.add("L7", q, d, window{0, 10}.params(r, int64(r)*1000), false)
 						}
+					}
+				}
+			}
+		}
+	}
+}
+
+// zoneOffsets: the reader process's local zone is an environment dimension — UTC, UTC+9 (Asia/Tokyo), UTC+14
+// (Pacific/Kiritimati), UTC-5, UTC+5:45 (Asia/Kathmandu); fixed offsets, no tzdata needed.
+var zoneOffsets = []int{0, 9 * 3600, 14 * 3600, -5 * 3600, 5*3600 + 45*60}
+
+// zones (L8): reader time zone x windows whose start lies just before / just after UTC midnight and the zone's local
+// midnight, and just before / after those instants + 30 min (the slack of the lower `date` bound), over databases
+// whose time_series rows carry the UTC day of their samples (a series with samples only before UTC midnight is
+// registered only on the earlier day, one with samples only after it only on the later).  The reference result does
+// not depend on the zone.  Window = 120 s, step = range.
+func (g *generator) zones() {
+	streams := []Stream{
+		{Labels: map[string]string{"job": "j", "a": "x", "b": "1"}, Type: 1, FP: 201},
+		{Labels: map[string]string{"job": "j", "a": "x", "b": "2"}, Type: 1, FP: 202},
+		{Labels: map[string]string{"job": "j", "a": "y", "b": "1"}, Type: 1, FP: 203},
+	}
+	type pe struct {
+		stream int
+		offS   int64
+		line   string
+	}
+	pool := []pe{ // offsets from the window start; with from = midnight - 60 s the first two lie before midnight
+		{0, 10, `{"v":1,"m":"k"}`}, {0, 50, `{"v":2,"m":"k"}`},
+		{1, 70, `{"v":4,"m":"k"}`}, {1, 110, `{"v":8,"m":"k"}`},
+		{2, 10, `{"v":16,"m":"k"}`}, {2, 110, `{"v":32,"m":"k"}`},
+	}
+	maxSub := 1
+	if g.thorough {
+		maxSub = 2
+	}
+	subs := subsets(len(pool), maxSub)
+	all := make([]int, len(pool))
+	for i := range all {
+		all[i] = i
+	}
+	subs = append(subs, all)
+	dbsFor := map[int64][]*Database{}
+	dbs := func(fromS int64) []*Database {
+		if d, ok := dbsFor[fromS]; ok {
+			return d
+		}
+		var out []*Database
+		for _, sub := range subs {
+			mask := 0
+			for _, i := range sub {
+				mask |= 1 << i
+			}
+			d := &Database{Name: fmt.Sprintf("zone-f%d-%02x", fromS, mask), Streams: streams, DaysFromSamples: true}
+			for _, i := range sub {
+				d.Entries = append(d.Entries, Entry{Stream: pool[i].stream, TS: (fromS + pool[i].offS) * sec, Line: pool[i].line})
+			}
+			out = append(out, d)
+			dbIndex[d.Name] = d
+		}
+		dbsFor[fromS] = out
+		return out
+	}
+	qs := []*Query{
+		{Matchers: selJ, Fn: "count_over_time", RangeS: 5},                                                              // plain range aggregation, samples path
+		{Matchers: selJ, Fn: "count_over_time", RangeS: 15, Agg: "sum", AGroup: by(false, "a")},                         // shortcut + by (labelsFromScratch)
+		{Matchers: selJ, Fn: "rate", RangeS: 5, Agg: "sum", AGroup: by(true, "b")},                                      // rate + by, samples path
+		{Matchers: selJ, Fn: "count_over_time", RangeS: 15, Agg: "sum", AGroup: without(false, "b"), Top: "topk", K: 1}, // topk over sum without
+		{Matchers: selJ, Stages: []Stage{jsonV(), unwrapV()}, Fn: "sum_over_time", RangeS: 15, RGroup: by(true, "a")},   // unwrap
+	}
+	if g.thorough {
+		qs = append(qs,
+			&Query{Matchers: selJ, Fn: "rate", RangeS: 15},
+			&Query{Matchers: selJ, Fn: "bytes_rate", RangeS: 15},
+			&Query{Matchers: selJ, Fn: "bytes_over_time", RangeS: 60},
+			&Query{Matchers: selJ, Fn: "count_over_time", RangeS: 60, Agg: "sum", AGroup: by(true, "a", "b")},
+			&Query{Matchers: selJ, Stages: []Stage{{Kind: "label", Label: "a", Op: "=", Val: "x"}}, Fn: "count_over_time", RangeS: 5},
+			&Query{Matchers: selJ, Stages: []Stage{{Kind: "label", Label: "b", Op: "=", Val: "1"}}, Fn: "rate", RangeS: 15},
+			&Query{Matchers: selJ, Stages: []Stage{{Kind: "line", Op: "|=", Val: "k"}}, Fn: "count_over_time", RangeS: 15, Agg: "max", AGroup: without(true, "a")},
+			&Query{Matchers: selJ, Fn: "count_over_time", RangeS: 5, RCmp: &Cmp{">=", "1"}, Agg: "count", AGroup: by(false, "job")},
+			&Query{Matchers: selJ, Fn: "count_over_time", RangeS: 15, Agg: "sum"},
+			&Query{Matchers: selJ, Fn: "rate", RangeS: 5, Top: "bottomk", K: 2},
+			&Query{Matchers: selJ, Stages: []Stage{jsonV(), unwrapV()}, Fn: "avg_over_time", RangeS: 5, RGroup: without(false, "v", "b")},
+			&Query{Matchers: selJ, Stages: []Stage{jsonV(), unwrapV()}, Fn: "max_over_time", RangeS: 15, RGroup: by(true, "a", "b"), Agg: "sum", AGroup: by(false, "a")},
+			&Query{Matchers: selJ, Stages: []Stage{jsonV(), unwrapV()}, Fn: "last_over_time", RangeS: 60, RGroup: by(true, "b")},
+			&Query{Matchers: []Matcher{{"a", "=~", "x|y"}}, Fn: "count_over_time", RangeS: 15, Agg: "sum", AGroup: by(false, "b")},
+		)
+	}
+	const utcMidnight = 50400 // 2024-03-02T00:00:00Z in seconds since T0 (2024-03-01T10:00:00Z)
+	for _, off := range zoneOffsets {
+		localMidnight := ((int64(-off)-36000)%86400 + 86400) % 86400
+		anchors := []int64{utcMidnight}
+		if localMidnight != utcMidnight {
+			anchors = append(anchors, localMidnight)
+		}
+		for _, a := range anchors {
+			for _, delta := range []int64{-60, 60, 1740, 1860} {
+				from := a + delta
+				for _, q := range qs {
+					for _, d := range dbs(from) {
+						g.addZ("L8", q, d, Params{FromS: from, ToS: from + 120, StepMs: int64(q.RangeS) * 1000}, false, off)
 					}
 				}
 			}
